@@ -34,16 +34,16 @@ ASSUMPTIONS = ["start_line scrolling of the rendered buffer is not part of the p
                "start line 0); counters and trace metadata are not compared",
                "busy flag: set by any write to the chip, cleared by a status read (documented in hd61202.py)"]
 PROBES = ["cs_none", "cs_both_read", "column_wrap", "data_read", "status_read", "instr_on_off", "start_line_set",
-          "window_2000", "window_A000", "high_offset", "flip_hidden_bit"]
+          "window_2000", "window_A000", "high_offset", "flip_hidden_bit", "window_mirror_address"]
 TOTAL_BITS = 2 * 8 * 64 * 8
 
 
 def batches(tier: str) -> List[Batch]:
     if tier == "quick":
         return [Batch("hist", "py+rs-lcd", 8000, 100), Batch("pix", "py+rs-lcd", 400, 10),
-                Batch("flip", "py+rs-lcd", 64, 2)]
+                Batch("flip", "py+rs-lcd", 64, 2), Batch("py-bus", "py-lcd", 160, 8)]
     return [Batch("hist", "py+rs-lcd", 600000, 300), Batch("pix", "py+rs-lcd", 20000, 20),
-            Batch("flip", "py+rs-lcd", 256, 2)]
+            Batch("flip", "py+rs-lcd", 256, 2), Batch("py-bus", "py-lcd", 8000, 20)]
 
 
 def _gen_ops(r: Rng, n: int) -> List[list]:
@@ -86,6 +86,18 @@ def generate(batch: str, r: Rng, idx: int, tier: str) -> Dict[str, Any]:
             sl = sl[:per // 2]       # quick tier visits half of every slice; thorough completes the permutation
         bits = [[b >> 12, (b >> 9) & 7, (b >> 3) & 63, b & 7] for b in sl]
         return {"kind": "flip", "exec": "py+rs-lcd", "bits": bits}
+    if batch == "py-bus":
+        # the windows as the Python machine's bus maps them: every address of 0xA000-0xAFFF (and 0x2000-0x200F) reaches
+        # the controller and decodes by its low nibble only
+        ops = _gen_ops(r, r.choice([20, 60]))
+        rb = r.child("mirror")
+        for op in ops:
+            nib = op[1] & 0xF
+            if (op[1] & 0xF000) == 0xA000 or rb.chance(1, 2):
+                op[1] = 0xA000 | (rb.below(256) << 4) | nib
+            else:
+                op[1] = 0x2000 | nib
+        return {"kind": "bus", "exec": "py-lcd", "ops": ops}
     n = r.choice([20, 60, 150, 400]) if batch == "hist" else r.choice([20, 60])
     return {"kind": "hist", "exec": "py+rs-lcd", "ops": _gen_ops(r, n), "pixels": batch == "pix"}
 
@@ -146,7 +158,50 @@ def _run_py_flip(bits: List[list]) -> List[list]:
     return out
 
 
+def _run_py_bus(scn: Dict[str, Any]) -> Dict[str, Any]:
+    """The same accesses through the machine's memory bus (controller attached by the emulator) and on a bare
+    controller at the base address of the window with the same low nibble."""
+    from pce500.display.controller_wrapper import HD61202Controller
+    from pce500.emulator import PCE500Emulator
+    emu = PCE500Emulator(save_lcd_on_exit=False, perfetto_trace=False)
+    ref = HD61202Controller()
+    trace = []
+    for op in scn["ops"]:
+        base = (op[1] & 0xF000) | (op[1] & 0xF)
+        if op[0] == 0:
+            emu.memory.write_byte(op[1], op[2])
+            ref.write(base, op[2])
+            got = want = None
+        else:
+            got = emu.memory.read_byte(op[1])
+            want = ref.read(base)
+        trace.append([got, want, _py_regs(emu.lcd), _py_regs(ref)])
+    return {"trace": trace}
+
+
+def _check_bus(scn: Dict[str, Any], hist: Dict[str, Any]) -> List[dict]:
+    viols: List[dict] = []
+    hist["_probes"] = probes = {}
+    for i, (op, rec) in enumerate(zip(scn["ops"], hist["trace"])):
+        got, want, bus_regs, ref_regs = rec
+        if op[1] & 0xFF0:
+            probes["window_mirror_address"] = probes.get("window_mirror_address", 0) + 1
+        if bus_regs != ref_regs:
+            viols.append({"cls": "decode", "executor": "py-lcd", "where": {"level": "bus", "window": f"{op[1] & 0xF000:#06x}"},
+                          "msg": f"op {i} {['write', 'read'][op[0]]} at {op[1]:#06x} through the machine bus left the controller in "
+                                 f"{bus_regs}, the same access on the controller gives {ref_regs}", "at": i})
+            break
+        if op[0] == 1 and want is not None and got != (want & 0xFF):
+            viols.append({"cls": "read_value", "executor": "py-lcd", "where": {"level": "bus"},
+                          "msg": f"op {i} read at {op[1]:#06x} through the machine bus returned {got}, the controller returns {want}",
+                          "at": i})
+            break
+    return viols
+
+
 def execute(scn: Dict[str, Any]) -> Dict[str, Any]:
+    if scn["kind"] == "bus":
+        return _run_py_bus(scn)
     if scn["kind"] == "flip":
         rs = host().call([["l.flip", 0, scn["bits"]]])[0]
         return {"py": _run_py_flip(scn["bits"]), "rs": rs}
@@ -390,6 +445,8 @@ def _check_flip(scn: Dict[str, Any], hist: Dict[str, Any]) -> List[dict]:
 
 
 def check(scn: Dict[str, Any], hist: Dict[str, Any]) -> List[Dict[str, Any]]:
+    if scn["kind"] == "bus":
+        return _check_bus(scn, hist)
     if scn["kind"] == "flip":
         return _check_flip(scn, hist)
     return _check_hist(scn, hist)
@@ -397,6 +454,10 @@ def check(scn: Dict[str, Any], hist: Dict[str, Any]) -> List[Dict[str, Any]]:
 
 def stats(scn: Dict[str, Any], hist: Dict[str, Any]) -> Dict[str, Any]:
     probes = dict(hist.get("_probes") or {})
+    if scn["kind"] == "bus":
+        return {"nontrivial": bool(probes.get("window_mirror_address")), "sig": digest(scn["ops"]),
+                "faults": {"window_mirror_address": probes.get("window_mirror_address", 0)}, "probes": probes,
+                "cycles": 0, "boundaries": len(scn["ops"])}
     if scn["kind"] == "flip":
         return {"nontrivial": True, "sig": digest(scn["bits"]), "faults": {}, "probes": probes,
                 "cycles": 0, "boundaries": len(scn["bits"]), "extra": {"vram_bits_flipped": len(scn["bits"])}}
@@ -412,6 +473,8 @@ def stats(scn: Dict[str, Any], hist: Dict[str, Any]) -> Dict[str, Any]:
 
 
 def sample(scn: Dict[str, Any], hist: Dict[str, Any]) -> Dict[str, Any]:
+    if scn["kind"] == "bus":
+        return {"ops": [[o[0], hex(o[1])] + o[2:] for o in scn["ops"][:20]], "reads_bus_vs_controller": [t[:2] for t in hist["trace"][:20]]}
     if scn["kind"] == "flip":
         return {"bits": scn["bits"][:6], "python": hist["py"][:6], "rust": hist["rs"][:6]}
     return {"ops": [[o[0], hex(o[1])] + o[2:] for o in scn["ops"][:20]],
